@@ -158,6 +158,135 @@ func runC03(c *Check) {
 		c.ok("C03-R4", "modify:none", "", "no store in the Merge call tree goes through an input object", fmt.Sprintf("%d functions scanned; values are accumulated only into samples taken from the merger's own table", len(names)))
 	}
 
+	// ---- R6 zero-sample scan before every successful return of Merge
+	{
+		mg := tree["Merge"]
+		var scan *ssa.Call
+		for _, b := range mg.Blocks {
+			for _, ins := range b.Instrs {
+				if call, ok := ins.(*ssa.Call); ok && call.Call.StaticCallee() != nil && call.Call.StaticCallee().Name() == "isZeroSample" && loopDepth(b) > 0 {
+					// the scan over the merged profile's samples: its argument is an element of p.Sample
+					if src := sourceDerived(call.Call.Args[0], isSourceParam, map[ssa.Value]bool{}); src == "" {
+						scan = call
+					}
+				}
+			}
+		}
+		if scan == nil {
+			c.bad("C03-R6", "zero-scan", p.relFile(mg.Pos()), "Merge no longer scans the merged samples for all-zero values: stacks whose sum is zero stay in the result")
+		} else {
+			ok := true
+			n := 0
+			for _, b := range mg.Blocks {
+				ret, isRet := b.Instrs[len(b.Instrs)-1].(*ssa.Return)
+				if !isRet {
+					continue
+				}
+				if k, isConst := ret.Results[0].(*ssa.Const); isConst && k.IsNil() {
+					continue
+				}
+				if ex, isExtract := ret.Results[0].(*ssa.Extract); isExtract {
+					if call, isCall := ex.Tuple.(*ssa.Call); isCall && call.Call.StaticCallee() == mg {
+						continue // the re-merge: return Merge([]*Profile{p})
+					}
+				}
+				n++
+				// the header of the scan loop dominates the return (the loop ran to completion)
+				var hdr *ssa.BasicBlock
+				for d := scan.Block(); d != nil && hdr == nil; d = d.Idom() {
+					for _, pred := range d.Preds {
+						if d.Dominates(pred) && (pred == scan.Block() || blockReachesPlain(scan.Block(), pred)) {
+							hdr = d // target of a back edge from inside the scan loop
+						}
+					}
+				}
+				if hdr == nil || !hdr.Dominates(b) {
+					ok = false
+				}
+			}
+			if ok && n > 0 {
+				c.ok("C03-R6", "zero-scan", p.relFile(scan.Pos()), "every successful return of Merge follows the scan for all-zero samples", "the scan loop dominates the return of the merged profile")
+			} else {
+				c.bad("C03-R6", "zero-scan", p.relFile(scan.Pos()), "Merge can return the merged profile without scanning it for all-zero samples: a stack whose values cancel stays in the result, and compacting twice differs from compacting once")
+			}
+		}
+	}
+	// ---- R2b: tokens appended to a key inside a loop are appended unconditionally
+	for _, n := range []string{"(*Location).key", "(*Mapping).key", "(*Function).key", "(*profileMerger).sampleKey"} {
+		f := tree[n]
+		for _, b := range f.Blocks {
+			for _, ins := range b.Instrs {
+				call, ok := ins.(*ssa.Call)
+				if !ok {
+					continue
+				}
+				bi, ok := call.Call.Value.(*ssa.Builtin)
+				if !ok || bi.Name() != "append" || loopDepth(b) == 0 {
+					continue
+				}
+				// conditional on a value test other than a nil test → variable-width encoding
+				cond := valueConditional(b)
+				key := fmt.Sprintf("fixedwidth:%s@%d", n, len(c.Obls))
+				if cond == "" {
+					c.ok("C03-R2", key, p.relFile(call.Pos()), "key token appended in "+n, "not conditional on an attribute's value")
+				} else {
+					c.bad("C03-R2", key, p.relFile(call.Pos()), "a key token of "+n+" is appended only when "+cond+": the key of an element has a variable number of tokens and two different entities can produce the same token sequence")
+				}
+			}
+		}
+	}
+
+	// ---- R7 header combination: the earliest collection time ignores inputs without one
+	{
+		ch := tree["combineHeaders"]
+		// the running minimum is updated from s.TimeNanos; that update must be unreachable
+		// when s.TimeNanos is 0 ("earliest non-zero one")
+		var upd *ssa.BasicBlock
+		for _, b := range ch.Blocks {
+			for _, ins := range b.Instrs {
+				phi, ok := ins.(*ssa.Phi)
+				if !ok {
+					continue
+				}
+				for i, e := range phi.Edges {
+					if isFieldLoad(e, "profile.Profile", "TimeNanos") {
+						if ld := e.(*ssa.UnOp); ld.Block() != nil {
+							upd = ld.Block()
+							_ = i
+						}
+					}
+				}
+			}
+		}
+		if upd == nil {
+			c.undecided("C03-R7", "timenanos", p.relFile(ch.Pos()), "the update of the merged TimeNanos was not found in combineHeaders")
+		} else {
+			reach := reachUnder(ch, func(cond ssa.Value) int {
+				cmp, ok := cond.(*ssa.BinOp)
+				if !ok {
+					return 0
+				}
+				// assume s.TimeNanos == 0
+				if isFieldLoad(cmp.X, "profile.Profile", "TimeNanos") {
+					if k, isK := constInt(cmp.Y); isK && k == 0 {
+						switch cmp.Op {
+						case token.EQL:
+							return 1
+						case token.NEQ, token.GTR:
+							return -1
+						}
+					}
+				}
+				return 0
+			})
+			if reach[upd] {
+				c.bad("C03-R7", "timenanos", p.relFile(ch.Pos()), "combineHeaders can take TimeNanos from an input whose TimeNanos is 0: a later input without a collection time overwrites the earliest non-zero one (inputs [5, 0] give 0)")
+			} else {
+				c.ok("C03-R7", "timenanos", p.relFile(ch.Pos()), "the merged collection time ignores inputs without one", "the update from s.TimeNanos is unreachable when s.TimeNanos == 0")
+			}
+		}
+	}
+
 	// ---- R5 memo reset per source
 	mg := tree["Merge"]
 	var mapCalls []ssa.Instruction
@@ -445,4 +574,36 @@ func isLoopVar(v ssa.Value) bool {
 	}
 	_, isPhi := v.(*ssa.Phi)
 	return isPhi
+}
+
+// valueConditional: block b (inside a loop) is entered only under a comparison of a loaded
+// attribute with a constant other than nil; returns a description of the condition.
+func valueConditional(b *ssa.BasicBlock) string {
+	for d := b; d != nil; d = d.Idom() {
+		id := d.Idom()
+		if id == nil || loopDepth(id) == 0 {
+			break
+		}
+		if len(d.Preds) != 1 || d.Preds[0] != id {
+			continue
+		}
+		iff, ok := id.Instrs[len(id.Instrs)-1].(*ssa.If)
+		if !ok {
+			continue
+		}
+		cmp, ok := iff.Cond.(*ssa.BinOp)
+		if !ok {
+			continue
+		}
+		if k, isK := cmp.Y.(*ssa.Const); isK && !k.IsNil() {
+			if _, isLen := cmp.X.(*ssa.Call); isLen {
+				continue
+			}
+			if rangeIndex(cmp.X) {
+				continue
+			}
+			return describeValue(cmp.X) + " " + cmp.Op.String() + " " + k.String()
+		}
+	}
+	return ""
 }
